@@ -243,7 +243,7 @@ pub fn check(mem: &Mem9, c: &C9Case) -> Verdict {
         let pid = libc::fork();
         assert!(pid >= 0);
         if pid == 0 {
-            libc::alarm(30);
+            libc::alarm(180);
             let r = std::panic::catch_unwind(std::panic::AssertUnwindSafe(|| child(mem, c)));
             libc::_exit(if r.is_ok() { 0 } else { 97 });
         }
